@@ -183,7 +183,7 @@ def run(chk, replay=None):
                     if ln and not ln.startswith("#"):
                         k = ln.split()[0]
                         cases.append((k, ln, None if k == "xrff" else ln, "corpus:" + f))
-        n = 5000 if quick else 60000
+        n = 5000 if quick else 40000
         for i in range(n):
             T = L.gen_table(rng, chk.tier)
             if T["ncols"] * len(T["rows"]) > 200 and rng.chance(0.7):
@@ -210,7 +210,7 @@ def run(chk, replay=None):
             filt = "0" if rng.chance(0.8) else "%d_%d" % (rng.between(2, 5), rng.below(2))
             ln = "csv %d %d %d %d %s %s" % (delim, hdr, rng.below(2), o, filt, L.hx(data))
             cases.append(("csv", ln, ln, "csv:" + what))
-        for _ in range(2000 if quick else 30000):          # random bytes
+        for _ in range(2000 if quick else 20000):          # random bytes
             m = rng.between(0, 60)
             alphabet = b',;\t "\n\r\x00ab1.-e\xff'
             data = bytes(alphabet[rng.below(len(alphabet))] if rng.chance(0.8) else rng.below(256) for _ in range(m))
